@@ -194,13 +194,13 @@ def _execute(case, rec):
                                  'second': [again['out'], again['how']]})
     if exp is not None:
         B, _, _, _ = L.null_basis(E)
-        dep, fz = L.degeneracy_certificates(E, fed, R=2)
+        dep, fz = L.degeneracy_certificates(E, fed)
         fzset = sorted(i + 1 for i in range(N)
                        if fz and sum(E[i][j] * fz[j] for j in range(len(els))) > 0)
         # (binding of the harness helpers to the specification: machinery, not a verdict)
         if len(B) != exp['k'] or bool(dep) != bool(exp['dep']):
             raise core.MachineryError('harness null-space helper disagrees with TLC on %r' % (case['cid'],))
-        if bool(fzset) != bool(exp['fz']) or not set(fzset) <= set(exp['fz']):
+        if not set(exp['fz']) <= set(fzset):
             raise core.MachineryError('harness forced-zero helper disagrees with TLC on %r' % (case['cid'],))
     return events, mism, infos
 
@@ -290,28 +290,38 @@ def run(ctx):
     if ctx.replay_case is not None:
         cases = [ctx.replay_case['case']]
     else:
-        # (D) design models
-        ctx.model('MC_Equilibrium', 'MC_Equilibrium')
-        bad = ctx.model('MC_Equilibrium', 'MC_Equilibrium_discard', expect_ok=False)
+        # (D) design models and (S->C) generators: independent TLC runs, started together
+        import concurrent.futures as cf
+        with cf.ThreadPoolExecutor(max_workers=7) as ex:
+            jobs = {
+                'proto': ex.submit(ctx.model, 'MC_Equilibrium', 'MC_Equilibrium', 4),
+                'discard': ex.submit(ctx.model, 'MC_Equilibrium', 'MC_Equilibrium_discard', 1, False),
+                'cert': ex.submit(ctx.model, 'MC_EqCert', ctx.pick('MC_EqCert', 'MC_EqCert_big')),
+                'norank': ex.submit(ctx.model, 'MC_EqCert', 'MC_EqCert_norank', 2, False),
+                'cases': ex.submit(core.tlc_cases, 'MC_EqCases', 'MC_EqCases'),
+                'beh': ex.submit(core.run_tlc, 'MC_Equilibrium', 'MC_Equilibrium_beh', None, 1, None, 600),
+            }
+            if not ctx.quick:
+                jobs['n4'] = ex.submit(ctx.model, 'MC_EqCert', 'MC_EqCert_n4')
+            done = {k: f.result() for k, f in jobs.items()}
+        bad = done['discard']
         if bad.ok or bad.violated != 'NoSilentFailure':
             raise core.MachineryError('the Discard variant should be rejected by NoSilentFailure')
         ctx.notes.append('design model rejects the implementation-shaped variant that discards the '
                          'success flag: NoSilentFailure violated')
-        r = ctx.model('MC_EqCert', ctx.pick('MC_EqCert', 'MC_EqCert_big'))
-        ncert = sum(core.parse_tla(p)[1] for p in r.prints() if core.tagged(p, 'CERTS'))
+        ncert = sum(core.parse_tla(p)[1] for p in done['cert'].prints() if core.tagged(p, 'CERTS'))
         if ncert < 500:
             raise core.MachineryError('certificate soundness model is vacuous (%d certificates)' % ncert)
         ctx.coverage['certificates_checked_sound'] = ncert
-        if not ctx.quick:
-            ctx.model('MC_EqCert', 'MC_EqCert_n4')
-        bad = ctx.model('MC_EqCert', 'MC_EqCert_norank', expect_ok=False)
+        bad = done['norank']
         if bad.ok or bad.violated != 'CertSound':
             raise core.MachineryError('the certificate rule without rank witness should be rejected')
+        ctx.notes.append('design model rejects the certificate rule without its rank witness: CertSound violated')
         # (S->C) networks and behaviours from TLC
-        tcases, r = core.tlc_cases('MC_EqCases', 'MC_EqCases')
+        tcases, r = done['cases']
         ctx.count('states', len(tcases))
         ctx.coverage['tlc_network_cases'] = len(tcases)
-        rb = core.run_tlc('MC_Equilibrium', 'MC_Equilibrium_beh', workers=1, timeout=600)
+        rb = done['beh']
         if not rb.ok:
             raise core.MachineryError('behaviour generation failed:\n' + rb.out[-2000:])
         behs = [core.parse_tla(p)[1] for p in rb.prints() if core.tagged(p, 'BEH')]
@@ -325,8 +335,8 @@ def run(ctx):
         pick = special[:max(1, n_t // 4)] + plain[:n_t - max(1, n_t // 4)]
         cases = [L.tlc_case(rnd, 'n%d' % k, c) for k, c in enumerate(pick)]
         cases += _beh_cases(behs)
-        cases += [L.random_case(rnd, 'r%d' % k) for k in range(ctx.pick(110, 2500))]
-        cases += [L.random_case(rnd, 'w%d' % k, wellcond=True) for k in range(ctx.pick(50, 800))]
+        cases += [L.random_case(rnd, 'r%d' % k) for k in range(ctx.pick(110, 1500))]
+        cases += [L.random_case(rnd, 'w%d' % k, wellcond=True) for k in range(ctx.pick(50, 500))]
         th = _thermdat_cases(rnd, ctx.pick(4, 60))
         for c in th:
             c['points'] = _in_quantifier(c)
@@ -369,7 +379,7 @@ def run(ctx):
                         'points': case.get('points', [[case.get('T'), case.get('P')]]),
                         'species': [s['formula'] for s in case.get('species', [])] or case.get('names')})
     _t0 = _time.time()
-    fails, stats = core.validate_traces('Trace_Equilibrium', 'Trace', traces)
+    fails, stats = core.validate_traces('Trace_Equilibrium', 'Trace', traces, shards=ctx.pick(6, 16))
     ctx.coverage['wall_validate_s'] = round(_time.time() - _t0, 1)
     ctx.count('traces_validated_against_impl', len(traces))
     ctx.coverage['trace_lines'] = stats['lines']
